@@ -359,3 +359,66 @@ Proof.
     - destruct wf_groups0 as (-> & ->). reflexivity. }
   rewrite XG. reflexivity.
 Qed.
+
+(* ---- 1-byte-sized strings of any length: Put cuts them to 254 characters in memory and in the
+   file alike, so Get reads back the header Put leaves in memory ---- *)
+Definition clip_tables (t : tables) : tables :=
+  mkTables (h_ver t) (h_endian t) (h_nblocks t) (clip1 (h_creator t)) (h_unkint t)
+           (clip1 (h_exp1 t)) (clip1 (h_exp2 t)) (clip1 (h_exp3 t))
+           (h_embed_size t) (h_embed t) (h_ntypes t) (h_types t) (h_tidx t) (h_sizes t)
+           (h_nstrings t) (h_maxlen t) (h_strings t) (h_ngroups t) (h_groups t).
+
+Lemma clip1_nil_inv : forall s, clip1 s = [] -> s = [].
+Proof. intros s H. destruct s; [reflexivity|]. unfold clip1 in H. simpl in H. discriminate. Qed.
+
+Lemma clip_tables_wf_id : forall t, wf_tables t -> clip_tables t = t.
+Proof.
+  intros t W. destruct W. destruct t as [v en nb cr unk e1 e2 e3 esz emb nt ty ti sz ns ml st ng g].
+  cbn [h_ver h_creator h_unkint h_exp1 h_exp2 h_exp3] in *. unfold clip_tables.
+  cbn [h_ver h_endian h_nblocks h_creator h_unkint h_exp1 h_exp2 h_exp3 h_embed_size h_embed
+       h_ntypes h_types h_tidx h_sizes h_nstrings h_maxlen h_strings h_ngroups h_groups].
+  destruct (is_bethesda v).
+  - destruct wf_beth0 as (_ & Hc & _ & H1 & H2 & H3).
+    rewrite (clip1_short cr) by apply Hc. rewrite (clip1_short e1) by apply H1. rewrite (clip1_short e2) by apply H2.
+    destruct (v_stream v =? 130); [rewrite (clip1_short e3) by apply H3|subst e3]; reflexivity.
+  - destruct wf_beth0 as (_ & -> & _ & -> & -> & ->). reflexivity.
+Qed.
+
+Lemma put_hdr_clip : forall t,
+  (is_bethesda (h_ver t) = false -> h_creator t = [] /\ h_exp1 t = [] /\ h_exp2 t = [] /\ h_exp3 t = []) ->
+  (v_stream (h_ver t) =? 130 = false -> h_exp3 t = []) ->
+  put_hdr t = put_hdr (clip_tables t).
+Proof.
+  intros t HB H3. destruct t as [v en nb cr unk e1 e2 e3 esz emb nt ty ti sz ns ml st ng g].
+  cbn [h_ver h_creator h_exp1 h_exp2 h_exp3] in *.
+  unfold put_hdr, clip_tables.
+  cbn [h_ver h_endian h_nblocks h_creator h_unkint h_exp1 h_exp2 h_exp3 h_embed_size h_embed
+       h_ntypes h_types h_tidx h_sizes h_nstrings h_maxlen h_strings h_ngroups h_groups].
+  rewrite !wr_str1_clip.
+  destruct (is_bethesda v) eqn:EB.
+  - destruct (v_stream v =? 130) eqn:E3; [reflexivity|].
+    rewrite (H3 eq_refl). reflexivity.
+  - destruct (HB eq_refl) as (-> & -> & -> & ->). reflexivity.
+Qed.
+
+Lemma put_hdr_clip_wf : forall t, wf_tables (clip_tables t) -> put_hdr t = put_hdr (clip_tables t).
+Proof.
+  intros t W. apply put_hdr_clip.
+  - intros EB. pose proof (wf_beth _ W) as B.
+    replace (is_bethesda (h_ver (clip_tables t))) with (is_bethesda (h_ver t)) in B by reflexivity.
+    rewrite EB in B. destruct B as (_ & Bc & _ & B1 & B2 & B3).
+    repeat split; apply clip1_nil_inv; assumption.
+  - intros E3. pose proof (wf_beth _ W) as B.
+    replace (is_bethesda (h_ver (clip_tables t))) with (is_bethesda (h_ver t)) in B by reflexivity.
+    replace (v_stream (h_ver (clip_tables t))) with (v_stream (h_ver t)) in B by reflexivity.
+    destruct (is_bethesda (h_ver t)).
+    + destruct B as (_ & _ & _ & _ & _ & B3). rewrite E3 in B3. apply clip1_nil_inv. exact B3.
+    + destruct B as (_ & _ & _ & _ & _ & B3). apply clip1_nil_inv. exact B3.
+Qed.
+
+Theorem hdr_get_put_long : forall t r, wf_tables (clip_tables t) ->
+  exists po, put_hdr t = Ok po /\ po_tables po = clip_tables t /\
+             get_hdr (po_bytes po ++ r) = Ok (clip_tables t, r).
+Proof.
+  intros t r W. rewrite (put_hdr_clip_wf t W). apply hdr_get_put. exact W.
+Qed.
